@@ -37,6 +37,7 @@ class Body:
         self.locals = {}          # local -> type string
         self.blocks = {}          # idx -> Block
         self.const_operand = None  # one-line consts: `const X: usize = const 12_usize;`
+        self.debug = {}           # debug name -> place text (`debug file => _2;`)
         self.line = 0
         self.n_lines = 0
         # filled by Program.index()
@@ -513,6 +514,10 @@ def parse_dump(text, crate):
             if body is None or not s or s.startswith("//"):
                 continue
             if cur is None:
+                m = re.match(r"^debug (\S+) => (.*);$", s)
+                if m:
+                    body.debug[m.group(1)] = m.group(2).strip()
+                    continue
                 m = re.match(r"^let (?:mut )?_(\d+): (.*);$", s)
                 if m:
                     body.locals[int(m.group(1))] = m.group(2).strip()
